@@ -21,6 +21,9 @@ import (
 
 type Engine struct {
 	T *testing.T
+	// Race: this is the race-sweep worker (binary built with -race).
+	Race     bool
+	TestName string
 }
 
 var gens = map[string]func(rng *core.Rand, env *core.Env, run int) *Scenario{
@@ -64,25 +67,27 @@ func (e *Engine) Run(env *core.Env, run int, res *core.Result) *core.Violation {
 		panic("e2: unknown property " + env.Property)
 	}
 	rng := core.NewRand(core.RunSeed(env.Seed, env.Property, run))
-	sc := gen(rng, env, run)
+	var sc *Scenario
+	profile := ""
+	if e.Race {
+		sc = genRace(rng, env, run)
+		profile = "race"
+	} else {
+		sc = gen(rng, env, run)
+	}
 	if v := env.ParamInt("max_steps", 0); v > 0 {
 		sc.Knobs.MaxSteps = v
 	}
 	body, _ := json.Marshal(sc)
-	c := &core.Case{Property: env.Property, Engine: "e2", Seed: env.Seed, Run: run, Body: body, GenTape: true, ReplayExact: true}
+	c := &core.Case{Property: env.Property, Engine: "e2", Seed: env.Seed, Run: run, Body: body, GenTape: true, ReplayExact: !e.Race, Profile: profile}
 	if sc.Aim && knownDeathListed(env) && os.Getenv("VERIF_NOSANDBOX") == "" {
 		// this run aims at listed findings, some of which kill the process
-		sig, msg, died, err := runInChild(env, c)
+		sig, msg, died, err := runInChild(env, c, e.TestName)
 		res.Count("runs-sandboxed", 1)
 		if died {
 			res.Count("sandboxed-process-deaths", 1)
 		}
-		if f := os.Getenv("VERIF_DETLOG"); f != "" {
-			if fh, e := os.OpenFile(f, os.O_APPEND|os.O_CREATE|os.O_WRONLY, 0o644); e == nil {
-				fmt.Fprintf(fh, "run=%d hash=sandboxed sig=%s\n", run, sig)
-				fh.Close()
-			}
-		}
+		detlog("run=%d hash=sandboxed sig=%s\n", run, sig)
 		if err != nil {
 			res.Notes = append(res.Notes, fmt.Sprintf("sandboxed run %d: %v", run, err))
 			return nil
@@ -103,12 +108,7 @@ func (e *Engine) Run(env *core.Env, run int, res *core.Result) *core.Violation {
 	}
 	sig, msg := judge(sc, rr, env)
 	account(sc, rr, res, run)
-	if f := os.Getenv("VERIF_DETLOG"); f != "" {
-		if fh, err := os.OpenFile(f, os.O_APPEND|os.O_CREATE|os.O_WRONLY, 0o644); err == nil {
-			fmt.Fprintf(fh, "run=%d hash=%016x sig=%s\n", run, rr.TraceHash, sig)
-			fh.Close()
-		}
-	}
+	detlog("run=%d hash=%016x sig=%s\n", run, rr.TraceHash, sig)
 	if sig == "" {
 		return nil
 	}
@@ -141,7 +141,7 @@ func nontrivial(sc *Scenario, rr *RunResult) bool {
 			}
 		}
 	}
-	if sc.Variant == "fault-free" {
+	if sc.Variant == "fault-free" || sc.Variant == "race" {
 		return active >= 2
 	}
 	return active >= 2 && (rr.FaultsAny || rr.NetFaults || rr.Faults["msg-drop"] > 0 || rr.Faults["snapshot-taken"] > 0)
@@ -227,6 +227,10 @@ func (e *Engine) Minimise(env *core.Env, c *core.Case) *core.Case {
 	}
 	if c.GenTape {
 		return c // found in a sandboxed child (process death): shrunk by the driver, not in-process
+	}
+	if env.Mode == "batch" && os.Getenv("VERIF_NOSANDBOX") == "" {
+		// candidates may hit a defect that kills the process: shrink in a child
+		return minimiseInChild(env, c, e.TestName)
 	}
 	budget := 250
 	try := func(s *Scenario, tape []uint32) bool {
@@ -317,7 +321,7 @@ func (e *Engine) Minimise(env *core.Env, c *core.Case) *core.Case {
 
 func knownDeathListed(env *core.Env) bool {
 	for pat := range env.Known {
-		if strings.Contains(pat, "/node-death/") || strings.Contains(pat, "/restart-failed/") || strings.Contains(pat, "/process-died/") ||
+		if strings.Contains(pat, "/node-death/") || strings.Contains(pat, "/restart-failed/") || strings.Contains(pat, "/process-died/") || strings.Contains(pat, "/data-race/") ||
 			strings.Contains(pat, "/*/") {
 			return true
 		}
@@ -326,11 +330,14 @@ func knownDeathListed(env *core.Env) bool {
 }
 
 var reSig = regexp.MustCompile(`REPLAY signature=(\S+)\n\s*([^\n]*)`)
-var rePanic = regexp.MustCompile(`(?m)^(panic: .*|fatal error: .*|.*log\.Fatal.*)$`)
+var rePanic = regexp.MustCompile(`(?m)^(panic: .*|fatal error: .*|WARNING: DATA RACE|node log: .*)$`)
 
 // runInChild replays a case in a fresh process.  died reports a process death
 // (sig is then the journal's attribution).
-func runInChild(env *core.Env, c *core.Case) (sig, msg string, died bool, err error) {
+func runInChild(env *core.Env, c *core.Case, testName string) (sig, msg string, died bool, err error) {
+	if testName == "" {
+		testName = "TestWorker"
+	}
 	dir, e := os.MkdirTemp("", "verif-e2-child")
 	if e != nil {
 		return "", "", false, e
@@ -341,7 +348,7 @@ func runInChild(env *core.Env, c *core.Case) (sig, msg string, died bool, err er
 	if e := core.SaveCase(casePath, c); e != nil {
 		return "", "", false, e
 	}
-	cmd := exec.Command(os.Args[0], "-test.run", "^TestWorker$", "-test.timeout", "0")
+	cmd := exec.Command(os.Args[0], "-test.run", "^"+testName+"$", "-test.timeout", "0")
 	var known []string
 	for k := range env.Known {
 		known = append(known, k)
@@ -349,6 +356,10 @@ func runInChild(env *core.Env, c *core.Case) (sig, msg string, died bool, err er
 	sort.Strings(known)
 	cmd.Env = append(os.Environ(), "VERIF_MODE=replay", "VERIF_CASE="+casePath, "VERIF_JOURNAL="+jpath, "VERIF_OUT=", "VERIF_DETLOG=", "VERIF_TRACEDIR=",
 		"VERIF_QUIET_REPLAY=1", "VERIF_KNOWN="+strings.Join(known, "\n"))
+	if g := os.Getenv("GORACE"); g != "" {
+		// the race runtime sleeps a second at exit by default
+		cmd.Env = append(cmd.Env, "GORACE="+g+" atexit_sleep_ms=0")
+	}
 	out, _ := cmd.CombinedOutput()
 	rc := cmd.ProcessState.ExitCode()
 	switch rc {
@@ -396,4 +407,57 @@ func (fatalFilter) Write(p []byte) (int, error) {
 	}
 	os.Stderr.WriteString("node log: " + str)
 	return len(p), nil
+}
+
+var detlogFile *os.File
+
+// detlog appends one line per run to VERIF_DETLOG (truncated when the process
+// first writes to it).
+func detlog(format string, a ...any) {
+	f := os.Getenv("VERIF_DETLOG")
+	if f == "" {
+		return
+	}
+	if detlogFile == nil {
+		fh, err := os.OpenFile(f, os.O_TRUNC|os.O_CREATE|os.O_WRONLY, 0o644)
+		if err != nil {
+			return
+		}
+		detlogFile = fh
+	}
+	fmt.Fprintf(detlogFile, format, a...)
+}
+
+// minimiseInChild runs Minimise (mode "minimise" of the worker binary) in a
+// fresh process; if a candidate kills that process the original case is kept.
+func minimiseInChild(env *core.Env, c *core.Case, testName string) *core.Case {
+	if testName == "" {
+		testName = "TestWorker"
+	}
+	dir, e := os.MkdirTemp("", "verif-e2-min")
+	if e != nil {
+		return c
+	}
+	defer os.RemoveAll(dir)
+	casePath, outPath := dir+"/case.json", dir+"/min.json"
+	if core.SaveCase(casePath, c) != nil {
+		return c
+	}
+	cmd := exec.Command(os.Args[0], "-test.run", "^"+testName+"$", "-test.timeout", "0")
+	var known []string
+	for k := range env.Known {
+		known = append(known, k)
+	}
+	sort.Strings(known)
+	cmd.Env = append(os.Environ(), "VERIF_MODE=minimise", "VERIF_CASE="+casePath, "VERIF_OUT="+outPath, "VERIF_JOURNAL=", "VERIF_DETLOG=", "VERIF_TRACEDIR=",
+		"VERIF_KNOWN="+strings.Join(known, "\n"))
+	cmd.CombinedOutput()
+	if cmd.ProcessState == nil || cmd.ProcessState.ExitCode() != 10 {
+		return c
+	}
+	mc, err := core.LoadCase(outPath)
+	if err != nil || mc.Signature != c.Signature {
+		return c
+	}
+	return mc
 }
